@@ -137,6 +137,16 @@ def mechanism_exercised(prop, c):
         return has(" ev inv ")
     if prop == "C09":
         return has(" ev notif ")
+    if prop in ("C15", "C17"):
+        return has(" ev inv M")
+    if prop == "C16":
+        return has(" ev note pk ")
+    if prop == "C20":
+        return has(" ev note memo ")
+    if prop == "C12":
+        return has(" ev inv ")
+    if prop == "C03":
+        return sum(1 for l in impl if " ev inv b" in l) >= 2
     if prop == "C14":
         return has(" ev inv x")
     if prop == "C13":
